@@ -173,9 +173,10 @@ class Impl:
                 me.apply_env(j)
             return v
 
-        def cprobe_body(arg):
+        def cprobe_body(arg=None, *, a=None, b=None):
+            # keyword mode: the two argument tuples are (a=-1) and (b=-1) - equal values, different names
             me = Impl._current
-            arg = CARGS.index(arg)
+            arg = CARGS.index(arg) if arg is not None else (0 if a is not None else 1)
             me.runs[arg] += 1
             if me.fail_next:
                 me.fail_next = False
@@ -286,7 +287,7 @@ class Impl:
         elif k == "cached":
             n = self.runs[op[1]]
             try:
-                v = self.cached(CARGS[op[1]])
+                v = self.cached(**{"ab"[op[1]]: -1}) if _KWARGS else self.cached(CARGS[op[1]])
             except ProbeFailure:
                 v = "raised"
             return (v, self.runs[op[1]] - n)
@@ -380,7 +381,9 @@ def searches(tier):
              ("cell-late", "cell-late", [0, 8], None, True),
              ("probes", "probes", [0, 1, 2], None, True),
              # standard output redirected: the library's get_terminal_size() and shutil's disagree
-             ("probes-redirected", "probes", [0, 1, 2], None, True)]
+             ("probes-redirected", "probes", [0, 1, 2], None, True),
+             # the memoized function called with keyword arguments of equal values and different names
+             ("probes-kwargs", "probes", [0, 1, 2], None, True)]
     if tier == "quick":
         return small
     return small + [("cell-large", "cell-large", [0, 1, 2, 3, 4, 5, 6, 7], None, True),
@@ -397,6 +400,7 @@ def searches(tier):
 # ---------------------------------------------------------------------------------- BFS (level-parallel)
 _CTX = None
 _JOB = None      # (name, envs, ops, merged)
+_KWARGS = False  # the `cached` probe is called with keyword arguments a=-1 / b=-1 instead of positional -1 / -2
 _STDOUT = None   # VTty.stdout_size of the search in progress (None: standard output is the terminal)
 REDIRECTED = (80, 24)   # differs from every terminal size of the resize alphabet
 
@@ -429,7 +433,7 @@ def _expand(histories):
                 steps = [ops[i] for i in h2]
                 col.violation(sig, f"after {steps[:-1]}: {what}",
                               dict(kind="history", search=search, stdout_size=stdout, envs=[list(e) for e in envs],
-                                   steps=steps))
+                                   steps=steps, kwargs=_KWARGS))
                 mach = None
                 continue
             if mach.model.notes:
@@ -442,8 +446,9 @@ def _expand(histories):
 
 
 def bfs(ctx, name, group, env_idx, depth, merged):
-    global _JOB, _STDOUT
+    global _JOB, _STDOUT, _KWARGS
     _STDOUT = REDIRECTED if "redirected" in name else None
+    _KWARGS = "kwargs" in name
     envs = [M.ENVS[i] for i in env_idx]
     ops = alphabet(group, len(envs))
     _JOB = (name, envs, ops, merged)
@@ -877,8 +882,9 @@ def replay(ctx, case):
             sched.restore_instances()
         return
     envs = [M.Env(*[tuple(x) if isinstance(x, list) else x for x in e]) for e in case["envs"]]
-    global _STDOUT
+    global _STDOUT, _KWARGS
     _STDOUT = tuple(case["stdout_size"]) if case.get("stdout_size") else None
+    _KWARGS = bool(case.get("kwargs"))
     mach = Machine(envs)
     steps = [[o[0]] + [(x if not isinstance(x, list) else tuple(x)) for x in o[1:]] for o in case["steps"]]
     for i, op in enumerate(steps):
